@@ -7,6 +7,69 @@ use std::{
 };
 pub mod stdlib;
 
+/// The checker and the evaluator walk an expression recursively, and the expression bound to a name by `let` is
+/// walked from where the name is used: the nesting that counts for the stack is the sum along such a chain, not
+/// the depth of the tree the parser has bounded. It is counted here, per thread, and bounded with an error.
+pub const MAX_EVAL_DEPTH: usize = 192;
+thread_local! {
+    // (levels entered and not left, the deepest level reached since the last `Nesting::measure` started)
+    static NESTING: std::cell::Cell<(usize, usize)> = const { std::cell::Cell::new((0, 0)) };
+}
+pub(crate) struct Nesting;
+impl Nesting {
+    fn too_deep() -> Error {
+        err_msg(format!(
+            "expression is nested too deeply to be evaluated: more than {} levels, the expression bound to a name counted where the name is used",
+            MAX_EVAL_DEPTH
+        ))
+    }
+    pub(crate) fn enter() -> Result<Self, Error> {
+        NESTING.with(|n| {
+            let (cur, peak) = n.get();
+            if cur >= MAX_EVAL_DEPTH {
+                return Err(Self::too_deep());
+            }
+            n.set((cur + 1, peak.max(cur + 1)));
+            Ok(Nesting)
+        })
+    }
+    /// Runs `f` and tells how many levels below the current one it went.
+    pub(crate) fn measure<T>(f: impl FnOnce() -> T) -> (T, usize) {
+        let (cur, saved) = NESTING.with(|n| {
+            let (cur, peak) = n.get();
+            n.set((cur, cur));
+            (cur, peak)
+        });
+        let ret = f();
+        let below = NESTING.with(|n| {
+            let (_, peak) = n.get();
+            n.set((cur, saved.max(peak)));
+            peak - cur
+        });
+        (ret, below)
+    }
+    /// Counts `below` levels that are not walked again because their result is remembered: what the checker
+    /// accepts must be within the bound wherever the evaluator meets the name first.
+    pub(crate) fn account(below: usize) -> Result<(), Error> {
+        NESTING.with(|n| {
+            let (cur, peak) = n.get();
+            if cur + below > MAX_EVAL_DEPTH {
+                return Err(Self::too_deep());
+            }
+            n.set((cur, peak.max(cur + below)));
+            Ok(())
+        })
+    }
+}
+impl Drop for Nesting {
+    fn drop(&mut self) {
+        NESTING.with(|n| {
+            let (cur, peak) = n.get();
+            n.set((cur - 1, peak));
+        })
+    }
+}
+
 #[derive(Debug, Eq, Clone)]
 pub enum Type {
     String,
@@ -356,6 +419,7 @@ impl Value {
 impl Evaluatable for Value {
     fn type_of(&self, ctx: ScriptContextRef) -> Result<Type, Error> {
         tracing::trace!("type_of={}", self);
+        let _nesting = Nesting::enter()?;
         use Value::*;
         match self {
             // Null => Ok(Type::Null),
@@ -392,6 +456,7 @@ impl Evaluatable for Value {
 
     fn value_of(&self, ctx: ScriptContextRef) -> Result<Value, Error> {
         tracing::trace!("value_of={}", self);
+        let _nesting = Nesting::enter()?;
         match self {
             Self::Identifier(id) => ctx.lookup(id).and_then(|x| x.value_of(ctx)),
             Self::OpCall(f) => f.call(ctx),
